@@ -240,7 +240,7 @@ func twoModelTx(run *Runner, t TxSpec, class string, reportExplained bool) (unex
 				c.Stat("explained_by_committed_state_reads", 1)
 				if reportExplained {
 					c.Violate("alt-model:operations-evaluated-on-committed-state", class,
-					fmt.Sprintf("%s (operation %d of %s): got %s; running the operations one after another gives %s; evaluated on the state at the start of the transaction it gives %s", o.String(), j+1, t.String(), got.String(), exp.String(), altExp.String()))
+						fmt.Sprintf("%s (operation %d of %s): got %s; running the operations one after another gives %s; evaluated on the state at the start of the transaction it gives %s", o.String(), j+1, t.String(), got.String(), exp.String(), altExp.String()))
 				}
 			} else {
 				sig := "call:" + o.K + ":" + kind
